@@ -200,8 +200,12 @@ def edit_transform(rng, req):
         if lev == sorted(lev, reverse=True) and len(set(lev)) == len(lev):
             return None
         req["levels"] = lev
-        if req["tdims"][0][0] == "zo" or any(d == "zo" for d, _ in req["tdims"]):
-            pass
+        # the refusal must not wait for a computation: lazy data, targets with or without a coordinate
+        if rng.random() < 0.5:
+            req["da_chunked"] = True
+        if rng.random() < 0.5:
+            req["target_kind"] = "arr"
+            req["target_nocoord"] = rng.random() < 0.6
     else:
         req["method"] = "conservative"
         req["has_outer"] = False
